@@ -1213,7 +1213,7 @@ impl Prop for C18 {
     fn plan(tier: Tier) -> Plan {
         Plan {
             shards: tier.pick(4, 16),
-            cases_per_shard: tier.pick(2_000, 10_000),
+            cases_per_shard: tier.pick(2_000, 30_000),
             watchdog: StdDuration::from_secs(tier.pick(300, 3600)),
         }
     }
@@ -1260,7 +1260,7 @@ impl Prop for C18 {
         if tier != Tier::Thorough {
             return Vec::new();
         }
-        crate::fuzz::run(
+        let mut v = crate::fuzz::run(
             &crate::fuzz::Campaign {
                 property: "C18",
                 target: "ndl_text",
@@ -1269,8 +1269,11 @@ impl Prop for C18 {
                 max_len: 1200,
                 seed,
                 seeds: seed_documents(seed),
+                max_time: 1500,
             },
             ev,
-        )
+        );
+        v.extend(fuzz_extra("C18", seed, ev));
+        v
     }
 }
